@@ -72,12 +72,12 @@ def a1(ctx, rep):
                 pc = [c for c in fv['calls'] if c.get('f') == parser]
                 ok = bool(pc) and vt.show(vt.strip(pc[0]['args'][1])).replace(' ', '') in ('self.parse_context.target_os', 'target_os:=self.parse_context.target_os')
                 rep.check(ok, 'A1', f'target-list:{parser}', 'the run\'s target list is handed down', f"{fn} passes `{vt.show(pc[0]['args'][1])[:50] if pc else '?'}` as target list to {parser}, not self.parse_context.target_os", {'file': f['file'], 'line': f['line']})
-    pe = ctx.fn('parse_enum', file='parser.rs')
+    pe = ctx.fnx('parse_enum', file='parser.rs')
     pv = [c for c in pe['calls'] if c.get('f') == 'parse_enum_variant']
     ok = bool(pv) and vt.show(vt.strip(pv[0]['args'][2])) == 'target_os'
     rep.check(ok, 'A1', 'target-list:parse_enum_variant', 'target list handed to the variant parser', 'parse_enum does not pass its target list to parse_enum_variant', {'file': pe['file'], 'line': pe['line']})
     for fn, n_expected in (('parse_struct', 1), ('parse_enum', 1), ('parse_enum_variant', 1)):
-        f = ctx.fn(fn, file='parser.rs')
+        f = ctx.fnx(fn, file='parser.rs')     # inlined view: the member loop may sit in a private shape helper
         sk = [c for c in f['calls'] if c.get('f') == 'is_skipped']
         ok = len(sk) >= n_expected and all(vt.show(vt.strip(c['args'][1])) == 'target_os' and vt.show(vt.strip(c['args'][0])).endswith('.attrs') for c in sk)
         rep.check(ok, 'A1', f'level:members-of:{fn}', 'is_skipped(member.attrs, target_os)', f'{fn} does not filter its members with is_skipped(&member.attrs, target_os)', {'file': f['file'], 'line': f['line']})
